@@ -11,6 +11,10 @@ Kinds of case:
         restates what is built; the round trip is demanded without the parse-fixpoint guard;
   lite  (round 5) only when the class-table translator fails closed: table-free implementation-only round trips with a
         foreign child named like an element another live class registers (verdicts through C12/Lite.v);
+  seq   (round 5, second pass) a HISTORY of serialisation calls - to_string() / str(), to_string(nspair),
+        register_prefix(nspair), to_string_force_namespace(nspair), the self-contained-assertion variant - on 1-3 long-lived
+        instances in one process: after every call the process-global prefix registry, the instance, what the independent
+        reader and the library's parser make of the bytes (C12/Prefix.v restates the registry, Corr.SEQ the rest);
   impl  checks on the implementation only (the truth is in the XML parser): entity-declaring documents are
         refused, malformed documents are refused, deep documents are refused or read completely, typed attribute
         values whose conversion the model does not restate (float, double, date) are stable.
@@ -29,7 +33,7 @@ PARALLEL = 6
 IMPORTS = "From Verif Require Import Base.Xml Base.ClassTable C12.Model C12.Build C12.Corr.\nFrom VerifGen Require Import ClassTables C12Vocab."
 CASE_TYPE = "C12.Corr.case"
 RUNNER = "C12.Corr.run"
-FINDING_CLASSES = {1: "C12-F1", 2: "C12-F2", 3: "C12-F3", 4: "C12-F4", 5: "C12-F5", 6: "C12-F6", 7: "C12-F7", 8: "C12-F8"}
+FINDING_CLASSES = {1: "C12-F1", 2: "C12-F2", 3: "C12-F3", 4: "C12-F4", 5: "C12-F5", 6: "C12-F6", 7: "C12-F7", 8: "C12-F8", 9: "C12-F9"}
 RULE = ("every class of the live table (core: saml, samlp, md, xmldsig, xmlenc, extension.*, soapenv, ecp, paos, samlec; "
         "extra: ws.*, authn_context.*) x seeded random instances (minimal / random / with foreign elements, foreign "
         "attributes and hostile characters / every schema attribute present with the EMPTY string; attribute values, "
@@ -60,6 +64,14 @@ RULE = ("every class of the live table (core: saml, samlp, md, xmldsig, xmlenc, 
         "(instance + document) and a quarter of the others; which children a class knows is judged by the XML Schema "
         "files (Xsd.xsd_kept_b). When the class-table translator fails closed, a table-free implementation-only battery "
         "(every core class x names it registers beyond its schema type, relatives' names, live tags) still names a failing input. "
+        "Histories (second pass of round 5): the complete family of call sequences of length <= 2 (+ a closing to_string()) over "
+        "{to_string(), to_string({p: X}), to_string({p: Y}), to_string({ns1: Z}), to_string({ns0: X, q: Y}), register_prefix, "
+        "to_string_force_namespace(full map), to_string_force_namespace({p: Z})} on one instance that combines the foreign "
+        "namespaces X, Y, Z (elements with namespace-qualified attributes, nested); seeded histories of 2-8 calls on 1-3 instances "
+        "(core classes, AttributeValue holders, a Response whose Assertion was moved into an EncryptedAssertion) that all draw on "
+        "one pool of four foreign namespaces, prefixes from a pool of 22 (ns<N> forms, ElementTree's built-ins xs/xsi/dc, "
+        "prefixes an earlier call of the same history asked for), nspairs partial or covering every namespace of the instance; "
+        "the registry is reset before and after every case. "
         "non-trivial = distinct (kind, class, outcome, shape features: foreign elements/attributes, repeated singleton, "
         "character classes)")
 TRUSTED = ["independent reader: xml.etree.ElementTree (expat) applied to the library's output",
@@ -77,7 +89,12 @@ TRUSTED = ["independent reader: xml.etree.ElementTree (expat) applied to the lib
            "AttributeValueBase.set_type, AttributeValueBase.get_type (theorems c12_source2_*; encodings enc_* / clark in "
            "C12/Source2.v; external calls - constructors, methods acting on another object, self.__class__.c_attributes - "
            "are universally quantified extra arguments)"]
-ASSUMPTIONS = ["recipes (C12/Build.v): str(float) is carried as data, float(str)/date conversions are not restated (model "
+ASSUMPTIONS = ["histories (C12/Prefix.v): xml.etree.ElementTree.register_namespace / _namespaces are restated from the Python 3.12 "
+               "source (re.match(r'ns\\d+$') for ASCII digits: the prefix pool has no non-ASCII digit); a nspair never binds the xml "
+               "namespace or a prefix starting with 'xml' (not legal XML, the caller's error); the registry every case starts from "
+               "is carried in the case (observed) and must satisfy map_ok_b; equal bytes are carried as equal identifiers; "
+               "the documents of the prefix-forcing calls are compared up to the order of the attributes of an element",
+               "recipes (C12/Build.v): str(float) is carried as data, float(str)/date conversions are not restated (model "
                "TUnmodelled: the round trip of such an instance is still evaluated on the implementation); str.strip() is "
                "restated for ASCII white space (seeded texts avoid outer non-ASCII white space); an int / bool / float kept "
                "as it is by xs:anyType is outside the property's domain (text is not a string): only model agreement is checked",
@@ -368,6 +385,8 @@ def vocab():
         for r in t.classes:
             for w in [q[1] for q, _m, _k, _l in r.children] + [q[1] for q, _m, _t, _r in r.attributes]:
                 words += [w.lower(), w.upper(), w[:1].swapcase() + w[1:]]
+        # round 5 (histories): the prefixes asked for and the namespaces ElementTree knows from the start
+        words += SEQ_PFX + list(ET_BUILTIN_NS) + ["urn:x-verif:unused", "encas"]
         seen, out = set(), []
         for w in words:
             if w and w not in seen:
@@ -1730,7 +1749,23 @@ def generate(ctx):
                 doc = doc.replace("<v ", "<%s " % rec.tag[1]).replace("</v>", "</%s>" % rec.tag[1])
                 cases.append({"kind": "impl", "c": i, "what": "av-unmodelled", "doc": doc})
     generate_round2(ctx, cases)
-    return cases
+    return spread(cases, "seq")
+
+
+def spread(cases, kind):
+    """The cases of one kind distributed evenly over the list (their terms are several times larger than the others':
+    at the end of the list they would all land in one shard of the Coq evaluation, which then runs alone)."""
+    big = [c for c in cases if c["kind"] == kind]
+    rest = [c for c in cases if c["kind"] != kind]
+    if not big or not rest:
+        return cases
+    every = max(1, len(rest) // len(big))
+    out = []
+    for n, c in enumerate(rest):
+        out.append(c)
+        if n % every == every - 1 and big:
+            out.append(big.pop(0))
+    return out + big
 
 
 def pick_pad(rng, form):
@@ -1785,6 +1820,7 @@ def generate_round2(ctx, cases):
     generate_round3(ctx, cases, random.Random(rng.getrandbits(64)))
     generate_round5(ctx, cases, random.Random(rng.getrandbits(64)))
     generate_live(ctx, cases, random.Random(rng.getrandbits(64)))
+    generate_seq(ctx, cases, random.Random(rng.getrandbits(64)))
 
 
 def generate_round3(ctx, cases, rng):
@@ -2073,6 +2109,294 @@ def generate_live(ctx, cases, rng):
             cases.append(case)
 
 
+# ---------------------------------------------------------------------------- histories (round 5, second pass)
+# Every case above serialises an instance ONCE, through to_string() without arguments, in a process whose prefix
+# registry (xml.etree.ElementTree._namespace_map, process-global) nobody ever touched.  The other serialisation entry
+# points of SamlBase - to_string(nspair) / register_prefix(nspair) (the nsprefix feature of the request builders),
+# to_string_force_namespace(nspair), get_xml_string_with_self_contained_assertion_within_encrypted_assertion() (the
+# step before encryption) - and what they leave behind were never exercised: that serialising leaves the INSTANCE as it
+# was (the built ElementTree is edited in place by the prefix rewriting), that the same instance serialised again, later
+# and next to other instances, is the same document, and that the REGISTRY stays usable whatever prefixes were asked
+# for (the same prefix for another namespace later on; a prefix of the form ElementTree hands out itself).
+# A history: 1-3 long-lived instances (foreign elements with namespace-qualified attributes at every depth, all drawing
+# on one small pool of foreign namespaces so that instances COMBINE namespaces), 2-8 calls.  The registry is reset to
+# what it was before and after every case (cases stay independent; observe() runs in long-lived worker processes).
+#   case: {"kind": "seq", "specs": [spec], "pre": [bool], "steps": [[j, op, [[prefix, uri]]]]}
+#   op:   plain | str | ns | reg | force | self
+SEQ_NS = FOREIGN_NS[:4]
+SEQ_PFX = ["p", "q", "saml", "samlp", "ns0", "ns1", "ns2", "ns3", "ns10", "ns01", "xs", "xsd", "xsi", "x-y", "_z", "é",
+           "encas0", "NS1", "ns", "ns1a", "n1", "dc"]
+ET_BUILTIN_NS = {"http://www.w3.org/XML/1998/namespace": "xml", "http://www.w3.org/1999/xhtml": "html",
+                 "http://www.w3.org/1999/02/22-rdf-syntax-ns#": "rdf", "http://schemas.xmlsoap.org/wsdl/": "wsdl",
+                 "http://www.w3.org/2001/XMLSchema": "xs", "http://www.w3.org/2001/XMLSchema-instance": "xsi",
+                 "http://purl.org/dc/elements/1.1/": "dc"}
+_PRISTINE = None
+
+
+def seq_ee(rng, depth=1):
+    """A foreign element whose attributes are (mostly) namespace-qualified; names from the small pools."""
+    e = {"ns": rng.choice(SEQ_NS), "tag": rng.choice(FOREIGN_LOCAL[:6]), "a": [], "k": [], "x": rng.choice([None, "t", "a b"])}
+    seen = set()
+    for _ in range(rng.choice([1, 1, 2, 3])):
+        q = (rng.choice(SEQ_NS), rng.choice(["level", "kind", "a", "lang"])) if rng.random() < 0.8 else (None, rng.choice(PLAIN_ATTR))
+        if q not in seen:
+            seen.add(q)
+            e["a"].append([list(q), rng.choice(["1", "v", ""])])
+    if depth > 0 and rng.random() < 0.4:
+        e["k"] = [seq_ee(rng, depth - 1)]
+    return e
+
+
+def seq_sprinkle(rng, spec, p=0.5):
+    """Foreign content with qualified names at every depth of an instance specification."""
+    rec = tab().classes[spec["c"]]
+    if spec.get("av"):
+        if spec["x"] is None and spec["typ"] is None and rng.random() < p:
+            spec["e"] = spec["e"] + [seq_ee(rng)]
+        if rng.random() < p:
+            spec["xa"] = [[[rng.choice(SEQ_NS), rng.choice(["level", "kind"])], "x"]]
+            spec["xa_first"] = True
+        return
+    if rng.random() < p:
+        spec["e"] = list(spec["e"]) + [seq_ee(rng) for _ in range(rng.choice([1, 1, 2]))]
+    if rng.random() < p * 0.6:
+        have = {tuple(q) for q, _v in spec["xa"]} | {tuple(n) for n, _m, _t, _r in rec.attributes}
+        q = (rng.choice(SEQ_NS), rng.choice(["level", "kind"]))
+        if q not in have:
+            spec["xa"] = list(spec["xa"]) + [[list(q), "x"]]
+    for _m, vals in spec["k"]:
+        for v in vals:
+            seq_sprinkle(rng, v, p * 0.8)
+
+
+def spec_namespaces(spec, out):
+    """The namespaces the instance's tree uses (attribute members that are set included)."""
+    rec = tab().classes[spec["c"]]
+    out.add(rec.tag[0])
+    given = {a[0] for a in spec.get("a", [])}
+    for n, m, _t, _r in rec.attributes:
+        if n[0] and m in given:
+            out.add(n[0])
+
+    def ee(e):
+        if e["ns"]:
+            out.add(e["ns"])
+        for q, _v in e["a"]:
+            if q[0]:
+                out.add(q[0])
+        for k in e["k"]:
+            ee(k)
+
+    for e in spec["e"]:
+        ee(e)
+    for q, _v in spec["xa"]:
+        if q[0]:
+            out.add(q[0])
+    if spec.get("av") and (spec.get("typ") or spec.get("x") is not None):
+        out.add(XSI)
+    for _m, vals in spec.get("k", []):
+        for v in vals:
+            spec_namespaces(v, out)
+    return out
+
+
+def seq_pairs(rng, uris, n, earlier):
+    """n (prefix, uri) pairs with pairwise distinct prefixes (a dict); half of the time a prefix some earlier call of
+    the history asked for comes back - for whatever namespace is drawn now."""
+    pairs, used = [], set()
+    for _ in range(n):
+        p = rng.choice(earlier) if earlier and rng.random() < 0.5 else rng.choice(SEQ_PFX)
+        if p in used:
+            continue
+        used.add(p)
+        pairs.append([p, rng.choice(uris)])
+    return pairs
+
+
+def gen_seq_steps(rng, specs, pre, n_steps):
+    used = set()
+    for sp in specs:
+        spec_namespaces(sp, used)
+    used.discard(XML_NS)                 # binding the xml namespace to another prefix is not legal XML
+    uris = sorted(used) + ["urn:x-verif:unused"]
+    steps, earlier = [], []
+    for _ in range(n_steps):
+        j = rng.randrange(len(specs))
+        ops = ["plain", "plain", "plain", "str", "ns", "ns", "ns", "reg", "force", "force", "force"] + (["self", "self"] if pre[j] else [])
+        op = rng.choice(ops)
+        np = []
+        if op in ("ns", "reg"):
+            np = seq_pairs(rng, uris, rng.choice([1, 1, 2, 3]), earlier)
+        elif op == "force":
+            own = set()
+            spec_namespaces(specs[j], own)
+            own.discard(XML_NS)
+            if rng.random() < 0.6:       # the usual call: every namespace of the instance gets a prefix
+                ps = rng.sample(SEQ_PFX, len(own)) if len(own) <= len(SEQ_PFX) else []
+                np = [[p, u] for p, u in zip(ps, sorted(own))]
+                rng.shuffle(np)
+            if not np:
+                np = seq_pairs(rng, sorted(own) + ["urn:x-verif:unused"], rng.choice([1, 2, 3]), earlier)
+        earlier += [p for p, _u in np]
+        steps.append([j, op, np])
+    return steps
+
+
+def seq_spec(rng, i, depth=1, budget=4):
+    spec = gen_spec(rng, i, depth, "rand", [budget])
+    seq_sprinkle(rng, spec, 0.6)
+    return spec
+
+
+def seq_response(rng):
+    """samlp.Response carrying one Assertion, to be moved into an EncryptedAssertion (sigver.pre_encrypt_assertion)
+    before the history starts: the instance the self-contained serialisation is for."""
+    t = tab()
+    ri, ai = t.by_name["saml2.samlp.Response"], t.by_name["saml2.saml.Assertion"]
+    spec = gen_spec(rng, ri, 0, "rand", [4])
+    a = gen_spec(rng, ai, 2, "rand", [6])
+    seq_sprinkle(rng, a, 0.7)
+    spec["k"] = [["assertion", [a]]]
+    seq_sprinkle(rng, spec, 0.3)
+    return spec
+
+
+# the small, COMPLETE family: one instance that combines three foreign namespaces (element in X with an attribute in Z,
+# element in Y), every history of length <= 2 over this alphabet (and every such history followed by plain)
+SEQ_X, SEQ_Y, SEQ_Z = SEQ_NS[0], SEQ_NS[1], SEQ_NS[3]
+SEQ_ALPHABET = [("plain", []), ("ns", [["p", SEQ_X]]), ("ns", [["p", SEQ_Y]]), ("ns", [["ns1", SEQ_Z]]), ("ns", [["ns0", SEQ_X], ["q", SEQ_Y]]),
+                ("reg", [["q", SEQ_Z], ["q2", SEQ_X]]), ("force", [["a", SEQ_X], ["b", SEQ_Y], ["c", SEQ_Z]]),
+                ("force", [["p", SEQ_Z]])]
+
+
+def seq_small_spec():
+    t = tab()
+    i = t.by_name["saml2.samlp.Extensions"]
+    return {"c": i, "a": [], "k": [], "xa": [], "x": None, "how": "ctor", "e": [
+        {"ns": SEQ_X, "tag": "First", "a": [[[SEQ_Z, "level"], "3"], [[None, "plain"], "x"]], "k": [
+            {"ns": SEQ_X, "tag": "Inner", "a": [[[SEQ_Z, "kind"], "k"]], "k": [], "x": "i"}], "x": "one"},
+        {"ns": SEQ_Y, "tag": "Second", "a": [[[None, "k"], "v"]], "k": [], "x": "two"}]}
+
+
+def generate_seq(ctx, cases, rng):
+    """Dimension added after seeded changes C12-0 (missed) and C12-9 (detected without a failing input): HISTORIES of
+    serialisation calls on long-lived instances in one process (see above).  Own PRNG, drawn after everything else."""
+    t = tab()
+    core = [i for i, r in enumerate(t.classes) if r.core and r.kind == "plain"]
+    with_kids = [i for i in core if t.classes[i].children]
+    av_holders = [t.by_name[n] for n in ("saml2.saml.Attribute", "saml2.saml.AttributeStatement", "saml2.saml.Assertion",
+                                         "saml2.samlp.Extensions", "saml2.samlp.LogoutRequest", "saml2.samlp.AuthnRequest",
+                                         "saml2.md.EntityDescriptor", "saml2.samlp.Response")]
+    small = seq_small_spec()
+    for a in SEQ_ALPHABET:                                             # complete, length <= 2 (+ plain)
+        for b in [None] + SEQ_ALPHABET:
+            for tail in (False, True):
+                steps = [[0, a[0], a[1]]] + ([[0, b[0], b[1]]] if b else []) + ([[0, "plain", []]] if tail else [])
+                if steps[-1][1] == "reg":
+                    continue
+                cases.append({"kind": "seq", "c": small["c"], "specs": [copy.deepcopy(small)], "pre": [False], "steps": steps,
+                              "why": "small"})
+    for n in range(900 if ctx.thorough else 160):                      # seeded
+        k = rng.choice([1, 1, 2, 2, 3])
+        specs, pre = [], []
+        for x in range(k):
+            r = rng.random()
+            if r < 0.15:
+                specs.append(seq_response(rng))
+                pre.append(True)
+                continue
+            i = rng.choice(av_holders) if r < 0.45 else (rng.choice(with_kids) if r < 0.8 else rng.choice(core))
+            specs.append(seq_spec(rng, i))
+            pre.append(False)
+        steps = gen_seq_steps(rng, specs, pre, rng.randint(2, 8))
+        cases.append({"kind": "seq", "c": specs[0]["c"], "specs": specs, "pre": pre, "steps": steps, "why": "seeded"})
+
+
+def _registry():
+    return [[u, p] for u, p in ET._namespace_map.items()]
+
+
+def observe_seq(case):
+    global _PRISTINE
+    from saml2 import saml, sigver
+
+    if _PRISTINE is None:
+        _PRISTINE = dict(ET._namespace_map)
+    saved = dict(ET._namespace_map)
+    ET._namespace_map.clear()
+    ET._namespace_map.update(_PRISTINE)
+    try:
+        try:
+            insts = [build(sp) for sp in case["specs"]]
+        except (ValueError, KeyError) as e:
+            return {"skip": "build:%s" % type(e).__name__}
+        for inst, pre in zip(insts, case["pre"]):
+            if pre:
+                sigver.pre_encrypt_assertion(inst)
+        out = {"gm0": _registry(), "o_in": [abs_obj(i) for i in insts], "steps": []}
+        assertion_tag = "{%s}%s" % (saml.NAMESPACE, "Assertion")
+        bids = {}
+        for j, op, np in case["steps"]:
+            inst, d = insts[j], {p: u for p, u in np}
+            s = err = None
+            try:
+                if op == "plain":
+                    s = inst.to_string()
+                elif op == "str":
+                    s = str(inst).encode("utf-8")
+                elif op == "ns":
+                    s = inst.to_string(d)
+                elif op == "reg":
+                    inst.register_prefix(d)
+                elif op == "force":
+                    s = inst.to_string_force_namespace(d)
+                elif op == "self":
+                    s = inst.get_xml_string_with_self_contained_assertion_within_encrypted_assertion(assertion_tag).encode("utf-8")
+                else:
+                    raise ValueError(op)
+            except RecursionError:
+                raise
+            except Exception as e:  # noqa: BLE001   (a serialisation call that raises: the step has no document)
+                err = "%s: %s" % (type(e).__name__, e)
+            st = {"gm": _registry(), "err": err, "out": None, "r": {"k": "none"}, "bid": 0}
+            try:
+                st["after"] = abs_obj(inst)
+            except AbstractionError as e:       # the call left something in the instance no instance can hold
+                st["after"] = None
+                st["err"] = "instance after the call: %s" % e
+            if s is not None:
+                st["bid"] = bids.setdefault(s, len(bids) + 1)
+                try:
+                    st["out"] = read(s)
+                except ET.ParseError as e:
+                    st["err"] = "not well-formed: %s" % e
+                else:
+                    st["r"] = pres(lib_parse(case["specs"][j]["c"], s))
+            out["steps"].append(st)
+        return out
+    finally:
+        ET._namespace_map.clear()
+        ET._namespace_map.update(saved)
+
+
+def cq_pairs(pairs):
+    return "[" + "; ".join("(%s, %s)" % (cq_s(a), cq_s(b)) for a, b in pairs) + "]"
+
+
+def cq_seq(case, obs):
+    sh = Share()
+    objs = [sh.use(cq_sobj(o)) for o in obs["o_in"]]
+    steps = []
+    for (j, op, np), st in zip(case["steps"], obs["steps"]):
+        opt = {"plain": "SPlain", "str": "SPlain", "self": "SSelf"}.get(op) or "(%s %s)" % (
+            {"ns": "SNs", "reg": "SReg", "force": "SForce"}[op], cq_pairs(np))
+        # an instance that can no longer be abstracted has certainly changed: any other object will do
+        after = sh.use(cq_sobj(st["after"])) if st["after"] is not None else "(SO 0%N [] [] [] [] (Some \"changed beyond abstraction\"))"
+        outt = "None" if st["out"] is None else "(Some %s)" % sh.use(cq_tree(st["out"]))
+        steps.append("SStep %d %s %s %s %s %s %d" % (j, opt, sh.use(cq_pairs(st["gm"])), after, outt, cq_pres(st["r"], sh), st["bid"]))
+    return sh.wrap("(SEQ %s [%s] [%s])" % (sh.use(cq_pairs(obs["gm0"])), "; ".join(objs), "; ".join(steps)))
+
+
 def observe(case):
     try:
         return _observe(case)
@@ -2092,6 +2416,8 @@ def _observe(case):
     idx = case["c"]
     if case["kind"] == "impl":
         return observe_impl(case)
+    if case["kind"] == "seq":
+        return observe_seq(case)
     if case["kind"] == "rtb":
         try:
             inst = build_recipe(idx, case["recipe"])
@@ -2214,6 +2540,8 @@ def coq_case(case, obs):
         if case["what"] == "av-root-xs":
             return "(IMPLF 4 %s)" % cq_bool(obs["ok"])
         return "(IMPL %s)" % cq_bool(obs["ok"])
+    if case["kind"] == "seq":
+        return cq_seq(case, obs)
     if case["kind"] == "rtb" and obs.get("braise"):
         return "(BRAISE %d%%N %s)" % (case["c"], cq_recipe(case["recipe"]))
     if case["kind"] == "rtb" and "nonstr" in obs:
@@ -2284,6 +2612,9 @@ def _outcome(case, obs):
         return "harness-error"
     if "skip" in obs:
         return "skip"
+    if case["kind"] == "seq":
+        bad = [st for st in obs["steps"] if st["err"]]
+        return "all-steps-written" if not bad else "step-failed:" + bad[0]["err"].split(":")[0]
     if case["kind"] == "rtb":
         if obs.get("braise"):
             return "build-raises"
@@ -2313,6 +2644,8 @@ def nontrivial(case, obs):
         return ("impl", name, case["what"], out)
     if "error" in obs or "skip" in obs:
         return None
+    if case["kind"] == "seq":
+        return ("seq", tuple(tab().classes[sp["c"]].name for sp in case["specs"]), out, seq_features(case))
     if case["kind"] == "rtb":
         rc = case["recipe"]
         return ("rtb", name, out, rc["text"][0], "ext" if rc["ext"] and rc["ext"] != "empty" else str(rc["ext"]),
@@ -2324,6 +2657,24 @@ def nontrivial(case, obs):
         return ("rt", name, out, tuple(feats) + tuple(sorted(set(case.get("alike", ())))))
     feats = sorted(_tree_feats(case["tree"]))
     return ("doc", name, case.get("root"), out, tuple(feats) + tuple(sorted(set(case.get("alike", ())))))
+
+
+def seq_features(case):
+    """What a history exercises: (ops in order, same prefix asked for two namespaces, a prefix of ElementTree's own
+    form asked for, a document written after a prefix-forcing call on the same instance, several instances)."""
+    import re
+
+    asked, clash, reserved, after_force, forced = {}, False, False, False, set()
+    for j, op, np in case["steps"]:
+        if op in ("force", "self"):
+            forced.add(j)
+        elif op != "reg" and j in forced:
+            after_force = True
+        for p, u in np:
+            if op in ("ns", "reg"):
+                clash = clash or asked.setdefault(p, u) != u
+            reserved = reserved or re.match(r"ns\d+$", p) is not None
+    return (tuple(op for _j, op, _np in case["steps"]), clash, reserved, after_force, len(case["specs"]))
 
 
 def _av_unmodelled(tree):
@@ -2352,6 +2703,15 @@ def histogram(cases, observed):
     seen = set()
     for c, o in zip(cases, observed):
         kind = c["kind"] + (":" + c["mode"] if c["kind"] == "rt" else (":" + c.get("root", "") if c["kind"] == "doc" else ""))
+        if c["kind"] == "seq":
+            kind = "seq:" + c["why"]
+            if "skip" not in o and "error" not in o:
+                ops, clash, reserved, after_force, n = seq_features(c)
+                hh = h.setdefault("histories", {})
+                for k in ["op:" + x for x in ops] + ["same-prefix-for-two-namespaces"] * clash + ["reserved-prefix-asked"] * reserved \
+                        + ["document-after-forced-prefixes"] * after_force + ["instances:%d" % n, "steps:%d" % len(ops)] \
+                        + ["self-contained-instance"] * any(c["pre"]):
+                    hh[k] = hh.get(k, 0) + 1
         if c["kind"] == "rtb":
             kind = "rtb:" + c["why"]
             key = "%s -> %s" % (c["why"], _outcome(c, o))
@@ -2377,6 +2737,8 @@ def histogram(cases, observed):
             h["doc_forms"][o["form"]] = h["doc_forms"].get(o["form"], 0) + 1
         h["outcome"][out] = h["outcome"].get(out, 0) + 1
         if "error" in o or "skip" in o or o.get("braise") or "nonstr" in o:
+            continue
+        if c["kind"] == "seq":
             continue
         feats = _obj_feats(o["o_in"]) if c["kind"] in ("rt", "rtb") else _tree_feats(c["tree"])
         for f in feats:
